@@ -208,7 +208,7 @@ func init() {
 		m := m
 		p.Strata = append(p.Strata, mon.Stratum{
 			Name: "random/" + m.Name,
-			N:    qt(12000, 300000),
+			N:    qt(12000, 1200000),
 			Run: func(c *mon.Ctx, i int) {
 				prof := c01Profiles[i%len(c01Profiles)]
 				a, b := v1Pair(c.R, m, prof, i)
@@ -247,7 +247,7 @@ func init() {
 	p.Strata = append(p.Strata, mon.Stratum{
 		Name: "cli-v2-false-pipeline",
 		CLI:  true,
-		N:    qt(240, 6000),
+		N:    qt(240, 24000),
 		Run: func(c *mon.Ctx, i int) {
 			m := []V1Set{V1None, V1SetM, V1Mset, V1Keys}[i%4]
 			a, b := v1Pair(c.R, m, gen.PDefault, i)
